@@ -307,6 +307,10 @@ example : compile 100 [.mdef ".f" ⟨[], [], [.call ".f" []]⟩, .rule [".r"] [.
     = .error (.nameError ".f") := compile_of_F 200 _ _ _ (by decide +kernel)
 example : compile 20 [.mdef ".f" ⟨[], [], [.call ".f" []]⟩, .rule [".r"] [.call ".f" []]]
     = .error .crash := compile_of_F 200 _ _ _ (by decide +kernel)
+/-- the counter is kept through a nested rule of an expanded body: recursion through `.x { .f(); }`
+    runs into the cutoff too -/
+example : compile 200 [.mdef ".f" ⟨[], [], [.rule [".x"] [.call ".f" []]]⟩, .rule [".r"] [.call ".f" []]]
+    = .error (.nameError ".f") := compile_of_F 400 _ _ _ (by decide +kernel)
 
 /-- binding: defaults, missing argument, surplus argument -/
 example : bindParams [("a", none), ("b", some [.lit "2"])] [[.lit "1"]]
